@@ -128,12 +128,6 @@ class Built:
 IDENT_ARG = {"workflow": "name", "port": "name", "step": "name", "token": "tag", "target": "workdir", "deployment": "name", "filter": "name"}
 
 
-def _dig(x, *path):
-    for p in path:
-        x = x[p]
-    return x
-
-
 def build_tokens(sf, shape, serial, variant, port_id, wf_id):
     """Token DAG o / a, b / s, x.  variant deals the container classes (ListToken, ObjectToken, JobToken) to the roles."""
     from streamflow.core.workflow import Job, Token
